@@ -36,6 +36,8 @@ Rules (keys are rule:unit:function:construct):
         relocation's offset (the obligations of C05 R05.1 image-copy / R05.3 / R05.5 / R05.7, re-issued: they state this clause of C07 too)
   R07.15 a floating value converted to an integer type by the folder (operand of ND_CAST; floating initializer of a static integer object) goes through a
         host conversion whose target holds every value of the destination that the path condition admits (unsigned 64-bit: not through int64_t)
+  R07.16 a consumer that puts the folded 64-bit value into a narrower object that outlives the expression (record field, argument, store through a pointer)
+        has compared the 64-bit value with bounds inside the narrower type and diagnosed before (C11 6.7.2.2p2, 6.7.2.1p4, 6.7.5p3, 6.7.6.2p1, 6.7.9p6)
   (R07.5 also: the operands run-time evaluation always evaluates - left operand of the comma operator included - are required constant by is_const_expr)
 
 The folder (parse.c eval2 / eval_double / is_const_expr) is summarised once per
@@ -280,6 +282,7 @@ def run(P, rep, tier):
     r076(F, rep)
     r073(P, rep)
     r077(F, P, rep)
+    r0716(F, P, rep)
     r079(F, rep)
     r0710(F, rep)
     r0711(F, rep)
@@ -1793,14 +1796,39 @@ def chain_fn_(chain, x, T0):
     return v
 
 
-def _value_bounds(p, w):
-    """[lo, hi] (python ints, None = unbounded) that the guards of path p put on the integral part of the floating value w by comparing it with constants"""
+def _strip_flo(v, p_min=0):
+    """v without its widening conversions and without the conversions between floating formats of at least p_min digits (the identity on a value that is
+    exact in p_min digits)"""
+    while True:
+        v = strip_widening(v)
+        if v[0] == 'cast' and v[1][0] == 'f' and v[2][0] == 'f' and PREC.get(v[1][1], 0) >= p_min:
+            v = v[3]; continue
+        return v
+
+
+def _guard_on_rounded(p, w, p_ft):
+    """a guard of path p compares the floating value w, exact in p_ft digits, after it was rounded to fewer digits: the format name, or None"""
+    for a, t in p.guards:
+        if a[0] != 'bin' or a[1] not in ('<', '<=', '>', '>=', '==', '!='):
+            continue
+        for x in (a[2], a[3]):
+            if _strip_flo(x, p_ft) != w and _strip_flo(x, 0) == w:
+                y = _strip_flo(x, p_ft)
+                return tshow(y[1]) if y[0] == 'cast' else 'a narrower type'
+    return None
+
+
+def _value_bounds(p, w, p_min=None):
+    """[lo, hi] (python ints, None = unbounded) that the guards of path p put on the integral part of the floating value w by comparing it with constants
+    (p_min: the comparisons may look at w through conversions between floating formats of at least p_min digits, which do not change it)"""
     import math
     lo = hi = None
     for a, t in p.guards:
         if a[0] != 'bin' or a[1] not in ('<', '<=', '>', '>='):
             continue
         x, y, op = strip_widening(a[2]), strip_widening(a[3]), a[1]
+        if p_min is not None:
+            x, y = _strip_flo(x, p_min), _strip_flo(y, p_min)
         if y == w and x[0] in ('flt', 'int'):
             x, y, op = y, x, {'<': '>', '<=': '>=', '>': '<', '>=': '<='}[op]
         if x != w or y[0] not in ('flt', 'int'):
@@ -1817,10 +1845,23 @@ def _value_bounds(p, w):
     return lo, hi
 
 
+def _peel_flo(chain, p_ft):
+    """chain (inner first) of conversions applied to a floating value that is exact in p_ft digits -> (digits of the narrowest floating format the value is
+    rounded to before it leaves the floating formats, or None when every such conversion holds it exactly; the rest of the chain)"""
+    i = 0; narrow = None
+    while i < len(chain) and chain[i][0][0] == 'f' and chain[i][1][0] == 'f':
+        d = PREC.get(chain[i][0][1], 0)
+        if d < p_ft and (narrow is None or d < narrow):
+            narrow = d
+        i += 1
+    return narrow, chain[i:]
+
+
 def _flo_shortcut(F):
-    """what the integer folder returns for a node of floating type: {floating type: [(lo, hi, chain (inner first) around eval_double(node))]}, one entry per
-    returning path (lo, hi: the bounds the path condition puts on the value), or a str (why not)"""
-    out = {}
+    """what the integer folder returns for a node of floating type: ({floating type: [(lo, hi, chain (inner first) around eval_double(node), beginning with the
+    conversion to an integer type)]}, one entry per returning path (lo, hi: the bounds the path condition puts on the value); {floating type: digits of a
+    narrower floating format the value is rounded to before that conversion}; {floating type: why the bounds are not decided}), or a str (why not)"""
+    out = {}; narrowed = {}; und = {}
     w = ('call', 'eval_double', (NODE,))
     for ft in F.FLOLIKE:
         branches = set()
@@ -1829,13 +1870,24 @@ def _flo_shortcut(F):
                 if p.outcome[0] != 'ret':
                     continue
                 core, chain = _core(p.outcome[1])
-                if core != w or not chain or chain[0][1][0] != 'f' or chain[0][0][0] != 'i':
+                narrow, rest = _peel_flo(chain, FLO_PREC[ft])
+                if core != w or not rest or rest[0][1][0] != 'f' or rest[0][0][0] != 'i':
                     return 'the value eval2 returns for a node of type %s (%s) is not a host conversion of eval_double(node) to an integer type' % (ft, show(p.outcome[1]))
-                branches.add(_value_bounds(p, w) + (tuple(chain),))
+                if narrow is not None:
+                    narrowed[ft] = min(narrow, narrowed.get(ft, narrow))
+                    # reported on its own; the range of the integer conversion is judged as if the guards looked at the value converted
+                    lohi = _value_bounds(p, w, 0)
+                else:
+                    g = _guard_on_rounded(p, w, FLO_PREC[ft])
+                    if g:
+                        und[ft] = ('the path that returns %s is selected by a comparison of the value rounded to %s: which values of a %s node take it is not decided' % (
+                            show(p.outcome[1]), g, ft))
+                    lohi = _value_bounds(p, w, FLO_PREC[ft])
+                branches.add(lohi + (tuple(rest),))
         if not branches:
             return 'eval2 has no returning path for a node of type %s' % ft
         out[ft] = sorted(branches, key=repr)
-    return out
+    return out, narrowed, und
 
 
 def _flo_to_int(F, p, v, shortcut, ft, is_arg, not_floating):
@@ -1846,15 +1898,23 @@ def _flo_to_int(F, p, v, shortcut, ft, is_arg, not_floating):
     if core[0] != 'call' or core[1] not in EVALUATORS or not core[2] or not is_arg(core[2][0]):
         return 'the value %s is not a conversion of the folded operand' % show(v)
     if core[1] == 'eval_double':
+        narrow, chain = _peel_flo(chain, FLO_PREC[ft])
         if not chain or chain[0][1][0] != 'f' or chain[0][0][0] != 'i':
             return 'the floating value is used as %s' % show(v)
-        lo, hi = _value_bounds(p, core)
-        return [(lo, hi, chain[0][0], chain[1:])]
+        if narrow is None:
+            g = _guard_on_rounded(p, core, FLO_PREC[ft])
+            if g:
+                return 'the path that yields %s is selected by a comparison of the value rounded to %s' % (show(v), g)
+        lo, hi = _value_bounds(p, core, 0 if narrow is not None else FLO_PREC[ft])
+        return [(lo, hi, chain[0][0], chain[1:], narrow)]
     if not_floating:
         return None
     if core[1] != 'eval2':
         return '%s is applied to an operand of floating type' % core[1]
-    return [(lo, hi, sc[0][0], list(sc[1:]) + chain) for lo, hi, sc in shortcut[ft]]
+    if ft in shortcut[2]:
+        return shortcut[2][ft]
+    # (a rounding inside eval2's own path for floating nodes is reported there, once per floating type)
+    return [(lo, hi, sc[0][0], list(sc[1:]) + chain, None) for lo, hi, sc in shortcut[0][ft]]
 
 
 def r0715(F, rep):
@@ -1865,7 +1925,9 @@ def r0715(F, rep):
     u = F.u
     rep.rule('R07.15', 'a floating value converted to an integer type by the folder (operand of a cast, eval2 ND_CAST; initializer of a static object of integer type, '
                        'write_gvar_data) goes through a host conversion whose target type holds every value of the destination type that the path condition admits, and keeps the '
-                       'destination\'s bits afterwards, for every integer class of the catalogue and every floating operand type (C11 6.3.1.4; run time: the cast table of the code generator)', floor=14)
+                       'destination\'s bits afterwards, for every integer class of the catalogue and every floating operand type; before that conversion the value is held only in host floating '
+                       'types that represent every value of the operand\'s type exactly (a long double value is not rounded to double first: the generated code converts all 64 digits) '
+                       '(C11 6.3.1.4; run time: the cast table of the code generator)', floor=17)
     try:
         shortcut = _flo_shortcut(F)
     except Unsupported as e:
@@ -1873,6 +1935,24 @@ def r0715(F, rep):
     if isinstance(shortcut, str):
         rep.undecided('R07.15', '%s:eval2:floating-node' % U, shortcut, where='%s:%d' % (U, u.fn('eval2').line))
         return
+    # eval2's own path for a node of floating type (every floating -> integer conversion of the folder starts here): the value eval_double returned, exact in
+    # the digits of the node's type, must reach the conversion to the integer type unrounded
+    we = '%s:%d' % (U, u.fn('eval2').line)
+    for ft in F.FLOLIKE:
+        d = shortcut[1].get(ft)
+        key = '%s:eval2:floating-node/%s' % (U, ft)
+        if d is not None:
+            nm = PREC_NAME.get(d, '%d-digit format' % d)
+            rep.ob('R07.15', '%s:rounded-to-%s-before-conversion' % (key, nm.replace(' ', '-')), False,
+                   'eval2 converts the value of a node of type %s to an integer after it has passed through a host object / conversion of type %s (%d digits; the node\'s type has %d): '
+                   'every floating -> integer conversion the folder performs (casts, static integer objects initialised from a floating expression, array bounds / case labels / enumerators '
+                   'built from such casts) rounds the value first, while the generated code converts the unrounded value: `static long x = (long)9007199254740993.0L;` holds 9007199254740992, '
+                   '`static unsigned long u = 18446744073709551615.0L;` holds 0 (run time: 9007199254740993, 18446744073709551615)' % (PREC_NAME[FLO_PREC[ft]], nm, d, FLO_PREC[ft]),
+                   where=we, facts={'node_type': ft, 'digits_kept': d, 'digits_of_type': FLO_PREC[ft]})
+        elif ft in shortcut[2]:
+            rep.undecided('R07.15', key, shortcut[2][ft], where=we)
+        else:
+            rep.ob('R07.15', key, True, '', where=we)
     classes = {}
     for t in F.INTLIKE:
         if t not in ('bool', 'ptr'):      # _Bool: R07.2 / R07.12; a floating value converted to a pointer is a constraint violation
@@ -1891,7 +1971,12 @@ def r0715(F, rep):
             if isinstance(r, str):
                 und = r; continue
             n += 1
-            for lo, hi, H, rest in r:
+            for lo, hi, H, rest, narrow in r:
+                if narrow is not None:
+                    nm = PREC_NAME.get(narrow, '%d-digit format' % narrow)
+                    bad['rounded-to-%s-before-conversion' % nm.replace(' ', '-')] = (
+                        '%s of type %s from a %s value: the folded value is rounded to %s (%d digits) before the host converts it to %s (%s), the generated code converts the unrounded '
+                        '%d-digit value: `(long)9007199254740993.0L` folds to 9007199254740992' % (dest, t, ft, nm, narrow, tshow(H), show(v), FLO_PREC[ft]))
                 # the values of the destination type this branch is taken for
                 a = tlo if lo is None else max(tlo, lo)
                 b = thi if hi is None else min(thi, hi)
@@ -2459,6 +2544,12 @@ def _wide_local_cut(fd, c):
                 if T2[0] != 'i':
                     break
                 if T2[1] > lo:
+                    pp, under = _up(q)
+                    if pp is not None and pp.kind == 'BinaryOperator' and pp.opcode in ('==', '!='):
+                        other = pp.inner[1] if under is pp.inner[0] else pp.inner[0]
+                        o = other.strip()
+                        if o.kind == 'DeclRefExpr' and o.ref_id == var.id:
+                            break        # `v != (int)v`: the round trip is the range test itself (R07.16), not a consumer
                     return var, lo, T2, q
                 lo = min(lo, T2[1])
             q = q.parent
@@ -2526,3 +2617,284 @@ def _dest_name(q):
     if p is not None and p.kind in ('BinaryOperator', 'CompoundAssignOperator'):
         return 'operand of `%s`' % p.opcode
     return 'return'
+
+
+# ----------------------------------------------------------------- R07.16 ---
+DIAG = ('error', 'error_at', 'error_tok', 'exit', 'abort', '__assert_fail')
+
+
+def _up(n, kinds=('ParenExpr',), casts=()):
+    """the nearest ancestor of n that is not a parenthesis / one of the given implicit conversions; the node directly under it"""
+    x = n; p = n.parent
+    while p is not None and (p.kind in kinds or (p.kind in ('ImplicitCastExpr', 'CStyleCastExpr') and p.cast_kind in casts)):
+        x = p; p = p.parent
+    return p, x
+
+
+def _sink_of(x, fd, seen=None):
+    """x: an expression node whose value is the (already narrow) folded value.  Where does the value come to rest?  -> name of a sink that outlives the
+    expression (`field f`, `argument of g`, `*p`), or None when it only flows through locals / arithmetic / the return value of the function"""
+    seen = seen if seen is not None else set()
+    p, x = _up(x, casts=('IntegralCast', 'NoOp', 'LValueToRValue'))
+    if p is None:
+        return None
+    if p.kind == 'UnaryOperator' and p.opcode in ('++', '--', '+', 'post++', 'post--'):
+        return _sink_of(p, fd, seen)
+    if p.kind == 'ConditionalOperator' and x is not p.inner[0]:
+        return _sink_of(p, fd, seen)
+    if p.kind == 'CallExpr':
+        cal = p.callee()
+        if x is p.inner[0] or cal in DIAG or cal is None:
+            return None
+        return 'argument of %s' % cal
+    var = None
+    if p.kind == 'VarDecl':
+        var = p
+    elif p.kind == 'BinaryOperator' and p.opcode == '=' and x is p.inner[1]:
+        l = p.inner[0].strip()
+        if l.kind == 'MemberExpr':
+            return 'field %s' % l.name
+        if l.kind == 'UnaryOperator' and l.opcode == '*':
+            return '*%s' % l.inner[0].src()
+        if l.kind == 'ArraySubscriptExpr':
+            return 'element of %s' % l.inner[0].src()
+        if l.kind == 'DeclRefExpr' and l.ref_kind == 'VarDecl':
+            for d in fd.walk():
+                if d.kind == 'VarDecl' and d.id == l.ref_id:
+                    var = d
+            if var is None:
+                return 'global %s' % l.ref_name
+    if var is None or var.id in seen:
+        return None
+    seen.add(var.id)
+    for r in fd.walk():
+        if r.kind == 'DeclRefExpr' and r.ref_id == var.id:
+            q, under = _up(r)
+            if q is not None and q.kind == 'BinaryOperator' and q.opcode == '=' and under is q.inner[0]:
+                continue          # a write of the local
+            sk = _sink_of(r, fd, seen)
+            if sk:
+                return sk
+    return None
+
+
+def _fits(e, T, fd=None, depth=0):
+    """the expression e (a bound the 64-bit value is compared with) has, before the comparison's conversions, only values of the integer type T:
+    True / False / None (a 64-bit expression whose range is not known)"""
+    e = e.strip()
+    v = e.int_value()
+    lo, hi = (-(1 << (T[1] - 1)), (1 << (T[1] - 1)) - 1) if T[2] else (0, (1 << T[1]) - 1)
+    if v is not None:
+        return lo <= v <= hi
+    E = ctype(e.dtype)
+    if E[0] == 'b':
+        return True
+    if E[0] == 'i' and _holds_range(T, E[1], E[2]):
+        return True
+    if e.kind == 'DeclRefExpr' and e.ref_kind == 'VarDecl' and fd is not None and depth < 3:
+        # a local written once, by its initializer: the range of the initializer
+        for d in fd.walk():
+            if d.kind == 'VarDecl' and d.id == e.ref_id and d.inner and _written_once(fd, d):
+                init = d.inner[-1]
+                if init.kind not in ('IntegerLiteral',) and not init.kind.endswith('Expr') and not init.kind.endswith('Operator'):
+                    return None
+                return _fits(init, T, fd, depth + 1)
+    return None
+
+
+def _written_once(fd, var):
+    """the local is written by its initializer (or one assignment) only and its address is not taken"""
+    writes = 0
+    for r in fd.walk():
+        if r.kind == 'DeclRefExpr' and r.ref_id == var.id:
+            q2, under = _up(r)
+            if q2 is not None and ((q2.kind in ('BinaryOperator', 'CompoundAssignOperator') and q2.opcode.endswith('=') and q2.opcode not in ('==', '!=', '<=', '>=') and under is q2.inner[0])
+                                   or (q2.kind == 'UnaryOperator' and q2.opcode in ('++', '--', '&', 'post++', 'post--'))):
+                writes += 1
+    return writes <= (0 if var.inner else 1)
+
+
+def _range_checked(fd, var, use, T, depth=0):
+    """is the use of the 64-bit local var dominated by comparisons of var with bounds of the narrow type T (both sides) whose failing side ends in a diagnostic?
+    -> (has lower bound, has upper bound)"""
+    lower = upper = False
+    unknown = []
+    anc = [use] + list(use.ancestors())
+
+    def bound(c, sense):
+        """the comparison c is known to be `sense` where the use is: (lower, upper) it establishes"""
+        c = c.strip()
+        if c.kind != 'BinaryOperator' or c.opcode not in ('<', '<=', '>', '>=', '!=', '=='):
+            return False, False
+        L, R, op = c.inner[0].strip(), c.inner[1].strip(), c.opcode
+        if R.kind == 'DeclRefExpr' and R.ref_id == var.id:
+            L, R, op = R, L, {'<': '>', '<=': '>=', '>': '<', '>=': '<=', '!=': '!=', '==': '=='}[op]
+        if not (L.kind == 'DeclRefExpr' and L.ref_id == var.id):
+            return False, False
+        if ctype(c.inner[0].dtype) != ctype(var.dtype) or ctype(c.inner[1].dtype) != ctype(var.dtype):
+            return False, False      # compared after a conversion that changes the reading of the value (`val < 5ul`)
+        if op in ('!=', '=='):
+            # `v == (T)v` holds / `v != (T)v` was diagnosed: the value survives the narrowing to T, so it is a value of T
+            Rc = c.inner[1] if L is c.inner[0].strip() else c.inner[0]
+            x = Rc
+            while x.kind in ('ParenExpr',) or (x.kind == 'ImplicitCastExpr' and x.cast_kind in ('IntegralCast', 'NoOp')):
+                if x.kind == 'ImplicitCastExpr' and ctype(x.dtype)[1:] != ctype(var.dtype)[1:]:
+                    break
+                x = x.inner[0]
+            if (sense == (op == '==')) and x.kind in ('CStyleCastExpr', 'ImplicitCastExpr') and ctype(x.dtype)[0] == 'i' and _holds_range(T, ctype(x.dtype)[1], ctype(x.dtype)[2]):
+                y = x.inner[0].strip()
+                if y.kind == 'DeclRefExpr' and y.ref_id == var.id:
+                    return True, True
+            return False, False
+        if not sense:
+            op = {'<': '>=', '<=': '>', '>': '<=', '>=': '<'}[op]
+        ft_ = _fits(R, T, fd)
+        if not ft_:
+            if ft_ is None:
+                unknown.append(R.src())
+            return False, False
+        return (op in ('>', '>=')), (op in ('<', '<='))
+
+    # conditions of enclosing if statements that hold where the use is
+    for i, a in enumerate(anc):
+        if a.kind == 'IfStmt' and i and len(a.inner) >= 2 and anc[i - 1] is not a.inner[0]:
+            in_then = anc[i - 1] is a.inner[1]
+            conds = [a.inner[0]]
+            while conds:
+                c = conds.pop().strip()
+                if c.kind == 'BinaryOperator' and c.opcode == ('&&' if in_then else '||'):
+                    conds += [c.inner[0], c.inner[1]]; continue
+                lo2, hi2 = bound(c, in_then)
+                lower = lower or lo2; upper = upper or hi2
+    # statements that precede the use in a compound statement enclosing it
+    for i, a in enumerate(anc):
+        if a.kind != 'CompoundStmt':
+            continue
+        inside = anc[i - 1] if i else None
+        for st in a.inner:
+            if st is inside:
+                break
+            if st.kind != 'IfStmt' or len(st.inner) < 2:
+                continue
+            then = st.inner[1]
+            body = then.inner if then.kind == 'CompoundStmt' else [then]
+            if not body or body[-1].kind != 'CallExpr' or body[-1].callee() not in DIAG:
+                continue
+            conds = [st.inner[0]]
+            while conds:
+                c = conds.pop().strip()
+                if c.kind == 'BinaryOperator' and c.opcode == '||':
+                    conds += [c.inner[0], c.inner[1]]; continue
+                if c.kind != 'BinaryOperator' or c.opcode not in ('<', '<=', '>', '>=', '!='):
+                    continue
+                if c.opcode == '!=':
+                    lo2, hi2 = bound(c, False)       # diagnosed when it differs: equal afterwards
+                    lower = lower or lo2; upper = upper or hi2
+                    continue
+                L, R, op = c.inner[0].strip(), c.inner[1].strip(), c.opcode
+                if R.kind == 'DeclRefExpr' and R.ref_id == var.id:
+                    L, R, op = R, L, {'<': '>', '<=': '>=', '>': '<', '>=': '<='}[op]
+                if not (L.kind == 'DeclRefExpr' and L.ref_id == var.id):
+                    continue
+                if ctype(c.inner[0].dtype) != ctype(var.dtype) or ctype(c.inner[1].dtype) != ctype(var.dtype):
+                    continue          # compared after a conversion that changes the reading of the value (`val < 5ul`)
+                ft_ = _fits(R, T, fd)
+                if not ft_:
+                    # bounded by another local that is itself inside T on that side at this point (`if (val2 < val) error(..)` after `if (val < 0) error(..)`)
+                    ok2 = False
+                    if R.kind == 'DeclRefExpr' and R.ref_kind == 'VarDecl' and depth < 3:
+                        for d in fd.walk():
+                            if d.kind == 'VarDecl' and d.id == R.ref_id and d.id != var.id and _written_once(fd, d):
+                                lo2, hi2, _u = _range_checked(fd, d, st, T, depth + 1)
+                                ok2 = lo2 if op in ('<', '<=') else hi2
+                    if not ok2:
+                        if ft_ is None:
+                            unknown.append(R.src())
+                        continue
+                if op in ('<', '<='):
+                    lower = True        # diagnosed when below a bound of T: what remains is >= a value of T
+                else:
+                    upper = True
+    if upper and not ctype(var.dtype)[2]:
+        lower = True          # an unsigned 64-bit object below a bound of T is a value of T
+    return lower, upper, unknown
+
+
+def r0716(F, P, rep):
+    """The folder computes in 64 bits.  A consumer whose object is narrower (int enumerator value, int array length, int bit-field width, int alignment)
+    changes the value when it does not fit: the constant the program then uses differs from the value of the constant expression (and C11 makes each of
+    these a constraint: the value shall be representable / in range, so a diagnostic is required).  The only sound shape is: keep the value in a 64-bit
+    object, compare it with bounds that lie inside the narrow type on both sides, diagnose, then narrow."""
+    rep.rule('R07.16', 'a consumer that puts the folded 64-bit value into a narrower object that outlives the expression (a record field, an argument of a call, a store '
+                       'through a pointer) holds it in a 64-bit object first and narrows it only after comparisons with bounds inside the narrow type, on both sides, whose failing '
+                       'side ends in a diagnostic: a value that does not fit is never silently reduced modulo 2^32 (C11 6.7.2.2p2 enumerators, 6.7.2.1p4 bit-field widths, '
+                       '6.7.5p3 _Alignas, 6.7.6.2p1 array sizes, 6.7.9p6 designators)', floor=5)
+    producers = ('const_expr', 'eval', 'eval2')
+    for un in P.unit_names:
+        cu = P.unit(un)
+        for fname, fd in sorted(cu.functions.items()):
+            if fname in FOLD + ('eval', 'const_expr', 'eval_truth'):
+                continue
+            done = set()
+            for c in fd.calls(producers):
+                base = '%s:%s:%s->%s' % (un, fname, c.callee(), _sink_name(c))
+                if base in done:
+                    continue
+                where = '%s:%d' % (un, c.line)
+                p, x = _up(c)
+                if p is not None and p.kind in ('ImplicitCastExpr', 'CStyleCastExpr') and p.cast_kind == 'IntegralCast' and ctype(p.dtype)[0] == 'i' and ctype(p.dtype)[1] < 64:
+                    T = ctype(p.dtype)
+                    sk = _sink_of(p, fd)
+                    if sk is None:
+                        continue           # flows on through locals / the return value: not a resting place of the constant
+                    done.add(base)
+                    rep.ob('R07.16', '%s/unchecked-narrowing-to-%s' % (base, tshow(T)), False,
+                           '%s converts the 64-bit result of %s() to %s at once and the value comes to rest in `%s`: a constant that does not fit is reduced modulo 2^%d without a diagnostic, '
+                           'so the program is translated with a different constant than the expression denotes (`enum { A = 0x80000000 }; static long ea = A;` holds -2147483648, '
+                           '`sizeof(char[0x100000001])` is 1, `int w : 0x100000001` is accepted as width 1, `_Alignas(0x100000008)` as 8); C11 requires the value to be representable '
+                           '(constraint, diagnostic required)' % (fname, c.callee(), tshow(T), sk, T[1]), where=where, facts={'sink': sk, 'narrow_type': tshow(T)})
+                    continue
+                # held in a 64-bit local: every narrowing use that comes to rest somewhere must be range-checked before
+                q, x = _up(c, casts=('IntegralCast', 'NoOp'))
+                var = _stored_local(x) if q is not None else None
+                if var is None or ctype(var.dtype)[0] != 'i' or ctype(var.dtype)[1] < 64:
+                    continue
+                once = _written_once(fd, var)
+                bad = {}; n = 0; und = None
+                for r in fd.walk():
+                    if r.kind != 'DeclRefExpr' or r.ref_id != var.id:
+                        continue
+                    q2, under = _up(r, casts=('LValueToRValue', 'NoOp'))
+                    if q2 is None or q2.kind not in ('ImplicitCastExpr', 'CStyleCastExpr') or q2.cast_kind != 'IntegralCast':
+                        continue
+                    T = ctype(q2.dtype)
+                    if T[0] != 'i' or T[1] >= 64:
+                        continue
+                    sk = _sink_of(q2, fd)
+                    if sk is None:
+                        continue
+                    n += 1
+                    if not once:
+                        und = 'the 64-bit local `%s` is written more than once: which value its range checks saw is not decided' % var.name
+                        continue
+                    lo, hi, unk = _range_checked(fd, var, q2, T)
+                    if not (lo and hi) and unk:
+                        und = ('`%s` is compared with %s before it is narrowed to %s for `%s`: whether that bound lies inside %s is not decided' % (
+                            var.name, ', '.join('`%s`' % x for x in sorted(set(unk))), tshow(T), sk, tshow(T)))
+                        continue
+                    if not (lo and hi):
+                        miss = 'lower and upper' if not (lo or hi) else ('lower' if not lo else 'upper')
+                        bad['%s:%s-bound-unchecked' % (sk.replace(' ', '-'), miss.replace(' ', '-'))] = (
+                            '%s narrows the folded value held in `%s` to %s for `%s` without a preceding comparison with a%s bound inside %s that ends in a diagnostic: '
+                            'a constant outside the range is reduced modulo 2^%d silently' % (fname, var.name, tshow(T), sk, ' ' + miss if miss != 'lower and upper' else ' lower and an upper', tshow(T), T[1]))
+                if not n:
+                    continue
+                done.add(base)
+                for k, m in sorted(bad.items()):
+                    rep.ob('R07.16', '%s/%s' % (base, k), False, m, where=where)
+                if bad:
+                    continue
+                if und:
+                    rep.undecided('R07.16', base, und, where=where)
+                else:
+                    rep.ob('R07.16', base, True, '', where=where)
